@@ -453,82 +453,8 @@ func c14(c *Ctx) {
 			continue
 		}
 		okMask := true
-		// a package-level value that only the package initialiser writes stands for what it was initialised with
-		viaGlobal := func(v ssa.Value) ssa.Value {
-			ld, ok := v.(*ssa.UnOp)
-			if !ok || ld.Op != token.MUL {
-				return v
-			}
-			g, ok := ld.X.(*ssa.Global)
-			if !ok {
-				return v
-			}
-			var stored ssa.Value
-			n := 0
-			for _, fn := range p.Funcs {
-				if fn.Blocks == nil || fn.Pkg != g.Pkg {
-					continue
-				}
-				eachInstr(fn, func(i ssa.Instruction) {
-					if st, ok := i.(*ssa.Store); ok && st.Addr == ssa.Value(g) {
-						n++
-						if isPkgInit(fn) {
-							stored = st.Val
-						}
-					}
-				})
-			}
-			if n == 1 && stored != nil {
-				return stored
-			}
-			return v
-		}
 		for _, ret := range returnsOf(f) {
-			bo := retResult(ret, 0).(*ssa.BinOp)
-			m := viaGlobal(bo.Y)
-			if bo.Op == token.AND {
-				un, ok := m.(*ssa.UnOp)
-				if !ok || un.Op != token.XOR {
-					okMask = false
-					continue
-				}
-				m = un.X
-			}
-			for {
-				if cv, ok := m.(*ssa.Convert); ok {
-					m = cv.X
-					continue
-				}
-				break
-			}
-			m = viaGlobal(m)
-			sub, ok := m.(*ssa.BinOp)
-			one, isC := int64(0), false
-			if ok {
-				one, isC = constInt(sub.Y)
-			}
-			if !ok || sub.Op != token.SUB || !isC || one != 1 {
-				okMask = false
-				continue
-			}
-			ps := sub.X
-			for {
-				if cv, ok := ps.(*ssa.Convert); ok {
-					ps = cv.X
-					continue
-				}
-				break
-			}
-			ps = viaGlobal(ps)
-			for {
-				if cv, ok := ps.(*ssa.Convert); ok {
-					ps = cv.X
-					continue
-				}
-				break
-			}
-			cl, ok := ps.(*ssa.Call)
-			if !ok || !strings.HasSuffix(calleeName(cl.Common()), ".Getpagesize") {
+			if !exactPageMask(p, retResult(ret, 0).(*ssa.BinOp)) {
 				okMask = false
 			}
 		}
@@ -582,6 +508,10 @@ func c14(c *Ctx) {
 				if cl, ok := e.(*ssa.Call); ok && isPageStartFn(staticCallee(cl.Common())) && cl.Call.Args[0] == ssa.Value(f.Params[0]) {
 					okStart = true
 				}
+				// the page start written out in place: addr &^ (pagesize-1)
+				if bo, ok := e.(*ssa.BinOp); ok && resolveLocal(bo.X) == ssa.Value(f.Params[0]) && exactPageMask(p, bo) {
+					okStart = true
+				}
 				if bo, ok := e.(*ssa.BinOp); ok && bo.Op == token.ADD && bo.X == ssa.Value(ph) {
 					for _, a := range origins(bo.Y) {
 						if a.Kind == "call" && a.Name == "syscall.Getpagesize" {
@@ -592,7 +522,7 @@ func c14(c *Ctx) {
 			}
 			for _, ref := range *ph.Referrers() {
 				if bo, ok := ref.(*ssa.BinOp); ok && bo.Op == token.LSS && bo.X == ssa.Value(ph) {
-					if sum, ok := bo.Y.(*ssa.BinOp); ok && sum.Op == token.ADD {
+					if sum, ok := resolveLocal(bo.Y).(*ssa.BinOp); ok && sum.Op == token.ADD {
 						hasAddr := sum.X == ssa.Value(f.Params[0]) || sum.Y == ssa.Value(f.Params[0])
 						hasLen := false
 						for _, side := range []ssa.Value{sum.X, sum.Y} {
@@ -855,4 +785,72 @@ func c14ExtentExcludesRejected(p *Prog, r *Report) {
 	if n == 0 {
 		r.Und("C14.W2", "extent scanner returns", "", "no length-returning exit found in bytecode.GetFuncSize")
 	}
+}
+
+
+// initOnlyValue: a load of a package-level variable that only the package initialiser writes stands for what it was
+// initialised with; every other value stands for itself.
+func initOnlyValue(p *Prog, v ssa.Value) ssa.Value {
+	ld, ok := v.(*ssa.UnOp)
+	if !ok || ld.Op != token.MUL {
+		return v
+	}
+	g, ok := ld.X.(*ssa.Global)
+	if !ok {
+		return v
+	}
+	var stored ssa.Value
+	n := 0
+	for _, fn := range p.Funcs {
+		if fn.Blocks == nil || fn.Pkg != g.Pkg {
+			continue
+		}
+		eachInstr(fn, func(i ssa.Instruction) {
+			if st, ok := i.(*ssa.Store); ok && st.Addr == ssa.Value(g) {
+				n++
+				if isPkgInit(fn) {
+					stored = st.Val
+				}
+			}
+		})
+	}
+	if n == 1 && stored != nil {
+		return stored
+	}
+	return v
+}
+
+// exactPageMask: bo is `x & ^(ps-1)` or `x &^ (ps-1)` with ps the system page size (Getpagesize(), through conversions,
+// locals and initialiser-only package variables).
+func exactPageMask(p *Prog, bo *ssa.BinOp) bool {
+	if bo == nil || (bo.Op != token.AND && bo.Op != token.AND_NOT) {
+		return false
+	}
+	strip := func(v ssa.Value) ssa.Value {
+		for {
+			v = initOnlyValue(p, resolveLocal(v))
+			if cv, ok := v.(*ssa.Convert); ok {
+				v = cv.X
+				continue
+			}
+			return v
+		}
+	}
+	m := strip(bo.Y)
+	if bo.Op == token.AND {
+		un, ok := m.(*ssa.UnOp)
+		if !ok || un.Op != token.XOR {
+			return false
+		}
+		m = strip(un.X)
+	}
+	sub, ok := m.(*ssa.BinOp)
+	if !ok || sub.Op != token.SUB {
+		return false
+	}
+	if one, isC := constInt(sub.Y); !isC || one != 1 {
+		return false
+	}
+	cl, ok := strip(sub.X).(*ssa.Call)
+	return ok && strings.HasSuffix(calleeName(cl.Common()), ".Getpagesize")
 }
